@@ -216,6 +216,9 @@ type c20Case struct {
 	Accept     []string `json:"accept"`
 	Connection bool     `json:"connection,omitempty"` // also send `Connection: Upgrade`
 	Extra      [][]string `json:"extra,omitempty"`    // further request headers the property does not mention
+	// Prior: the document the SAME *NIP11 value held when it was requested once before; the
+	// configuration was then changed in place to Doc and requested again (obs is the second answer)
+	Prior *c20Doc `json:"prior,omitempty"`
 	Doc        *c20Doc  `json:"doc"`                  // route: nil = no NIP11 configured
 	HasDefault bool     `json:"has_default,omitempty"`
 	Obs        *c20Obs  `json:"obs,omitempty"`
@@ -271,8 +274,20 @@ func c20Exchange(c *c20Case, direct bool) {
 				obs.Panic = fmt.Sprint(r)
 			}
 		}()
+		// the configured document, possibly one that was served before with other content
+		docPtr := func() *mocrelay.NIP11 {
+			if c.Prior == nil {
+				return c.Doc.To()
+			}
+			p := c.Prior.To()
+			warm := httptest.NewRequest("GET", "http://relay.example/", nil)
+			warm.Header.Set("Accept", "application/nostr+json")
+			p.ServeHTTP(httptest.NewRecorder(), warm)
+			*p = *c.Doc.To()
+			return p
+		}
 		if direct {
-			c.Doc.To().ServeHTTP(rec, req)
+			docPtr().ServeHTTP(rec, req)
 			return
 		}
 		opt := mocrelay.NewDefaultRelayOption()
@@ -283,7 +298,7 @@ func c20Exchange(c *c20Case, direct bool) {
 			}), opt)
 		mux := &mocrelay.ServeMux{Relay: relay}
 		if c.Doc != nil {
-			mux.NIP11 = c.Doc.To()
+			mux.NIP11 = docPtr()
 		}
 		if c.HasDefault {
 			mux.Default = http.HandlerFunc(func(w http.ResponseWriter, r *http.Request) {
@@ -513,9 +528,16 @@ func c20Gen(r *common.Rand, i int) c20Case {
 			c.Doc = c20GenDoc(r)
 		}
 		c.Extra = c20GenExtra(r)
+		if c.Doc != nil && r.Chance(25) {
+			c.Prior = c20GenDoc(r)
+		}
 		return c
 	case p < 13:
-		return c20Case{K: "direct", Accept: common.Pick(r, c20Accepts), Doc: c20GenDoc(r), Method: "GET", Extra: c20GenExtra(r)}
+		c := c20Case{K: "direct", Accept: common.Pick(r, c20Accepts), Doc: c20GenDoc(r), Method: "GET", Extra: c20GenExtra(r)}
+		if r.Chance(30) {
+			c.Prior = c20GenDoc(r)
+		}
+		return c
 	case p < 17:
 		return c20Case{K: "doc", Doc: c20GenDoc(r)}
 	case p < 19:
